@@ -11,6 +11,9 @@ EVID = os.path.join(ROOT, "evidence")
 NCPU = min(16, os.cpu_count() or 4)
 
 
+TLA_CP = "/opt/veriftools/tla/tla2tools.jar:/opt/veriftools/tla/CommunityModules-deps.jar"
+
+
 class ToolError(Exception):
     pass
 
@@ -131,19 +134,21 @@ class TlcResult:
         self.wall = 0.0
 
 
-def run_tlc(spec, cfg, env=None, workdir_=None, workers=1, timeout=1500, xss="1g", xmx="3g",
+def run_tlc(spec, cfg, env=None, workdir_=None, workers=1, timeout=1500, xss="512m", xmx="3g",
             extra=None, simulate=None, coverage=False, deque=False):
     """Run TLC on spec/cfg (both relative to /verif/spec). Returns a TlcResult."""
     e = dict(os.environ)
-    jopts = f"-Xss{xss} -Xmx{xmx} -XX:ParallelGCThreads=2 -XX:CICompilerCount=2"
-    if deque:
-        jopts += " -Dtlc2.tool.queue.IStateQueue=StateDeque"
-    e["JAVA_TOOL_OPTIONS"] = jopts
+    e.pop("JAVA_TOOL_OPTIONS", None)
     if env:
         e.update({k: str(v) for k, v in env.items()})
     meta = os.path.join(workdir_ or OUT, "meta_" + os.path.basename(spec) + "_" + str(os.getpid()) + "_" + str(random.randrange(1 << 30)))
-    cmd = ["tlc", "-workers", str(workers), "-metadir", meta, "-cleanup", "-noGenerateSpecTE",
-           "-config", cfg]
+    # TLC is started through java directly: -Xss must be on the command line to reach the MAIN thread, which
+    # evaluates initial states and their invariants (JAVA_TOOL_OPTIONS only reaches threads created later)
+    cmd = ["java", f"-Xss{xss}", f"-Xmx{xmx}", "-XX:+UseParallelGC", "-XX:ParallelGCThreads=2", "-XX:CICompilerCount=2"]
+    if deque:
+        cmd.append("-Dtlc2.tool.queue.IStateQueue=StateDeque")
+    cmd += ["-cp", TLA_CP, "tlc2.TLC", "-workers", str(workers), "-metadir", meta, "-cleanup", "-noGenerateSpecTE",
+            "-config", cfg]
     if coverage:
         cmd += ["-coverage", "1"]
     if simulate:
